@@ -183,6 +183,11 @@ def _is_fresh(e):
         return _is_fresh(e.body) and _is_fresh(e.orelse)
     if isinstance(e, ast.Attribute) and e.attr.isupper():
         return True      # enumeration member / named constant: immutable
+    if isinstance(e, ast.Attribute) and e.attr in ("min", "max", "eps", "bits") and isinstance(e.value, ast.Call) \
+            and (call_name(e.value) or "") in ("np.iinfo", "np.finfo"):
+        return True      # a Python number
+    if isinstance(e, ast.Call) and (call_name(e) or "") in ("len", "min", "max", "abs", "round", "ord", "hash", "bool"):
+        return True      # scalars: `x op= e` on them is a plain rebinding
     if isinstance(e, ast.Call):
         fn = call_name(e) or ""
         if fn in _FRESH_CALLS or fn.startswith("__aug") or fn == "__set__" and _is_fresh(e.args[0]):
@@ -734,8 +739,63 @@ def _order_free(values):
     return True
 
 
+def _simplify(c):
+    """arithmetic clean-up after conditionals were hoisted: -(0) = 0, x + 0 = x"""
+    if not isinstance(c, tuple):
+        return c
+    c = tuple(_simplify(x) for x in c)
+    if len(c) == 2 and c[0] == "neg" and isinstance(c[1], tuple) and c[1][:1] == ("const",) and len(c[1]) == 2 \
+            and isinstance(c[1][1], int) and not isinstance(c[1][1], bool):
+        return _const(-c[1][1])
+    if c and c[0] == "+":
+        terms = [t for t in c[1:] if t != ("const", 0)]
+        if len(terms) == 1:
+            return terms[0]
+        return ("+",) + tuple(sorted(terms, key=repr))
+    if c and c[0] in ("*", "&", "|") and all(not isinstance(t, str) or True for t in c[1:]):
+        return (c[0],) + tuple(sorted(c[1:], key=repr))      # operands replaced by the hoisting are put in order again
+    return c
+
+
+def _tests_of(c, acc):
+    if isinstance(c, tuple):
+        if len(c) == 4 and c[0] == "if":
+            acc.add(repr(c[1]))
+            acc_t = c[1]
+        for x in c:
+            _tests_of(x, acc)
+    return acc
+
+
+def _order_ifs(c, depth=0):
+    """nested conditionals as an ordered decision tree: the test with the smallest text is decided first (so that
+    `if a: (if b ..)` and `if b: (if a ..)` of the same function are one form)"""
+    if not (isinstance(c, tuple) and len(c) == 4 and c[0] == "if") or depth > 5:
+        return c
+    tests = {}
+
+    def collect(x):
+        if isinstance(x, tuple) and len(x) == 4 and x[0] == "if":
+            tests.setdefault(repr(x[1]), x[1])
+            collect(x[2]); collect(x[3])
+    collect(c)
+    if len(tests) < 2:
+        return c
+    first = tests[min(tests)]
+
+    def restrict(x, val):
+        if isinstance(x, tuple) and len(x) == 4 and x[0] == "if":
+            if x[1] == first:
+                return restrict(x[2] if val else x[3], val)
+            a, b = restrict(x[2], val), restrict(x[3], val)
+            return a if a == b else ("if", x[1], a, b)
+        return _assume(x, first, val)
+    a, b = _order_ifs(restrict(c, True), depth + 1), _order_ifs(restrict(c, False), depth + 1)
+    return a if a == b else ("if", first, a, b)
+
+
 def canon(e):
-    return _seqfix(_hoist(_canon(e)))
+    return _seqfix(_order_ifs(_simplify(_hoist(_canon(e)))))
 
 
 def _canon(e):
@@ -790,6 +850,9 @@ def _canon(e):
                     else:
                         terms.append(c if sign > 0 else _neg(c))
             flat(e, 1)
+            terms = [t for t in terms if t != ("const", 0)]        # x + 0, x - 0 (the integer zero only: 0.0 changes the dtype)
+            if len(terms) == 1:
+                return terms[0]
             return ("+",) + tuple(sorted(terms, key=repr))
         if isinstance(e.op, ast.Mult):
             facs = []
@@ -980,3 +1043,13 @@ def field_of(summary, obj, attr):
         if a is not None and b is not None:
             return a if ast.dump(a) == ast.dump(b) else ast.IfExp(test=e.test, body=a, orelse=b)
     return None
+
+
+def local_value(func, var):
+    """value of a local after the stretch of top-level statements of `func` that builds it (from its first assignment to the
+    last statement that stores it), every other name left symbolic - cheap and independent of the rest of a long function"""
+    idx = [k for k, st in enumerate(func.body) if any(isinstance(n, ast.Name) and n.id == var and isinstance(n.ctx, ast.Store) for n in ast.walk(st))]
+    if not idx:
+        return None
+    sm = summarize_block(func.body[idx[0]:idx[-1] + 1])
+    return sm.env.get(var)
